@@ -97,3 +97,44 @@ Proof.
   rewrite Z.eqb_refl. destruct (is_nuc a && is_nuc a && nth i sel false); simpl; [|exact IH].
   rewrite IH. ring.
 Qed.
+
+(* ---- the "internal gaps only" counter is symmetric in the two rows ------------------------------------ *)
+(* (the bookkeeping of the two trailing-gap accumulators must treat both rows alike) *)
+Lemma internal_loop_sym : forall s1 s2 i ws rm fg1 fg2 tmp1 tmp2 d t,
+  (fst (internal_loop i s1 s2 ws rm fg1 fg2 tmp1 tmp2 d t) == fst (internal_loop i s2 s1 ws rm fg2 fg1 tmp2 tmp1 d t))%Q /\
+  (snd (internal_loop i s1 s2 ws rm fg1 fg2 tmp1 tmp2 d t) == snd (internal_loop i s2 s1 ws rm fg2 fg1 tmp2 tmp1 d t))%Q.
+Proof.
+  induction s1 as [|a t1 IH]; intros s2 i ws rm fg1 fg2 tmp1 tmp2 d t.
+  - destruct s2 as [|b t2]; cbn [internal_loop fst snd];
+      destruct (Qle_bool tmp1 tmp2) eqn:E1, (Qle_bool tmp2 tmp1) eqn:E2; try (split; reflexivity).
+    + apply Qle_bool_iff in E1. apply Qle_bool_iff in E2. assert (E : (tmp1 == tmp2)%Q) by (apply Qle_antisym; assumption).
+      split; rewrite E; reflexivity.
+    + exfalso. destruct (Qlt_le_dec tmp2 tmp1) as [H|H].
+      * apply Qlt_le_weak in H. apply Qle_bool_iff in H. congruence.
+      * apply Qle_bool_iff in H. congruence.
+    + apply Qle_bool_iff in E1. apply Qle_bool_iff in E2. assert (E : (tmp1 == tmp2)%Q) by (apply Qle_antisym; assumption).
+      split; rewrite E; reflexivity.
+    + exfalso. destruct (Qlt_le_dec tmp2 tmp1) as [H|H].
+      * apply Qlt_le_weak in H. apply Qle_bool_iff in H. congruence.
+      * apply Qle_bool_iff in H. congruence.
+  - destruct s2 as [|b t2].
+    + cbn [internal_loop fst snd].
+      destruct (Qle_bool tmp1 tmp2) eqn:E1, (Qle_bool tmp2 tmp1) eqn:E2; try (split; reflexivity).
+      * apply Qle_bool_iff in E1. apply Qle_bool_iff in E2. assert (E : (tmp1 == tmp2)%Q) by (apply Qle_antisym; assumption).
+        split; rewrite E; reflexivity.
+      * exfalso. destruct (Qlt_le_dec tmp2 tmp1) as [H|H].
+        -- apply Qlt_le_weak in H. apply Qle_bool_iff in H. congruence.
+        -- apply Qle_bool_iff in H. congruence.
+    + cbn [internal_loop].
+      rewrite (orb_comm (is_nuc b) (is_nuc a)), (Z.eqb_sym b a), (iupac_diff_sym b a).
+      rewrite (orb_comm (is_ambiguous b) (is_ambiguous a)).
+      set (cond := (is_nuc a || is_nuc b) && negb (fg1 && negb (is_nuc a)) && negb (fg2 && negb (is_nuc b))).
+      replace ((is_nuc a || is_nuc b) && negb (fg2 && negb (is_nuc b)) && negb (fg1 && negb (is_nuc a))) with cond
+        by (unfold cond; destruct (is_nuc a || is_nuc b), (negb (fg1 && negb (is_nuc a))), (negb (fg2 && negb (is_nuc b))); reflexivity).
+      destruct cond; apply IH.
+Qed.
+
+Theorem count_diffs_internal_sym s1 s2 ws rm :
+  (fst (count_diffs_internal s1 s2 ws rm) == fst (count_diffs_internal s2 s1 ws rm))%Q /\
+  (snd (count_diffs_internal s1 s2 ws rm) == snd (count_diffs_internal s2 s1 ws rm))%Q.
+Proof. unfold count_diffs_internal. apply internal_loop_sym. Qed.
